@@ -107,12 +107,12 @@ theorem load_delimited_eq_model {γ : Type} (s : List Char) (convs : List (Conv 
       by_cases hone : convs.length = 1
       · have e1 : decide (len convs = (1 : Int)) = true := by simp [hone]
         have e2 : decide ((1 : Int) = len convs) = true := by simp [hone]
-        simp only [e1, e2, if_true]
+        simp only [e1, e2, if_true, if_false, Bool.not_true, Bool.false_eq_true]
         simp [hone, columns, Cols.ofList]
       · have hl : len convs = (convs.length : Int) := rfl
         have e1 : decide (len convs = (1 : Int)) = false := decide_eq_false (by rw [hl]; omega)
         have e2 : decide ((1 : Int) = len convs) = false := decide_eq_false (by rw [hl]; omega)
-        simp only [e1, e2, Bool.false_eq_true, if_false]
+        simp only [e1, e2, Bool.false_eq_true, if_false, if_true, Bool.not_false]
         rw [Cols.ofList_of_length_ne_one _ (by rw [columns_length]; exact hone)]
 
 /-! ## the typed wrappers (one call of `load_delimited` + conversion; the validate-then-warn blocks are skipped) -/
